@@ -76,7 +76,9 @@ class Prop:
             sc.update({"future": rng.choice(["asyncio", "asyncio", "concurrent"]), "outcome": rng.choice(["result", "result", "exception", "cancel", "unsubscribe"]),
                        "value": vt.gen_value(rng, 0.5), "subscribe_first": rng.random() < 0.7, "via_start_async": rng.random() < 0.25})
         elif kind in ("to_future", "await"):
-            sc.update({"events": events, "timed": rng.random() < 0.5})
+            sc.update({"events": events, "timed": rng.random() < 0.5,
+                       # to_future: the same operator object has already converted another (non-empty) sequence
+                       "reused": rng.random() < 0.3})
         elif kind == "run":
             sc.update({"events": events, "via": rng.choice(["sync", "newthread", "eventloop", "default"]), "sched": th.gen_sched(rng, ks=(0, 1, 2, 3))})
         elif kind == "start":
@@ -181,7 +183,11 @@ class Prop:
             src = seq_source(rx, events)
         res = {}
         if sc["kind"] == "to_future":
-            fut = src.pipe(ops.to_future(loop.create_future))
+            op = ops.to_future(loop.create_future)
+            if sc.get("reused"):
+                earlier = seq_source(rx, [["N", 77], ["C"]]).pipe(op)
+                loop.run_until_complete(asyncio.wait_for(earlier, 1.0))
+            fut = src.pipe(op)
 
             async def main():
                 return await fut
